@@ -15,6 +15,19 @@ Theorem C08_first_decisive :
       last_event tr = Some EPoll.
 Proof. exact loop_finished. Qed.
 
+(* ... and conversely: a decisive reply to a poll that was SENT in time ([cl1] = the readings before
+   each poll up to that one, all <= deadline) is the outcome, whatever the clock reads once the
+   reply has arrived ([cl2] is arbitrary: no reading follows a decisive reply) and whatever the
+   server would have said next.  A token answering an in-time poll is never turned into the
+   synthetic expired_token. *)
+Theorem C08_decisive_in_time_wins :
+  forall ceiling dl pre cl1 interval cl2 k rest,
+    Forall non_decisive pre -> length cl1 = S (length pre) -> Forall (fun t => (t <= dl)%Z) cl1 ->
+    snd (poll_loop true ceiling dl interval (cl1 ++ cl2) (pre ++ RDecisive k :: rest)) = OFinished k /\
+    polls (fst (poll_loop true ceiling dl interval (cl1 ++ cl2) (pre ++ RDecisive k :: rest))) = S (length pre) /\
+    last_event (fst (poll_loop true ceiling dl interval (cl1 ++ cl2) (pre ++ RDecisive k :: rest))) = Some EPoll.
+Proof. exact loop_decisive_in_time. Qed.
+
 (* no poll is sent once the clock has passed the deadline: every poll follows a reading <= deadline,
    for an arbitrary (even non-monotone) clock *)
 Theorem C08_no_poll_after_deadline :
